@@ -254,7 +254,11 @@ impl GossipsubCodec {
         // obtained from the inlined source peer_id.
         let public_key = match message.key.as_deref().map(PublicKey::try_decode_protobuf) {
             Some(Ok(key)) => key,
-            _ => match PublicKey::try_decode_protobuf(&source.to_bytes()[2..]) {
+            Some(Err(_)) => {
+                tracing::warn!("Signature verification failed: Invalid public key supplied");
+                return false;
+            }
+            None => match PublicKey::try_decode_protobuf(&source.to_bytes()[2..]) {
                 Ok(v) => v,
                 Err(_) => {
                     tracing::warn!("Signature verification failed: No valid public key supplied");
